@@ -80,7 +80,7 @@ PROPS = {
     },
     "C01": {
         "level": "proof",
-        "units": ["nameparse", "labeliter", "sections", "optiter"],
+        "units": ["nameparse", "labeliter", "sections", "optiter", "txtdata"],
         "kani": [
             {"group": "g0", "name": "c01_header_getters_total", "kind": "complete", "tier": "quick",
              "what": "Message::from_slice + every Header/HeaderCounts/HeaderSection getter on every 12-octet header: no panic, "
@@ -89,6 +89,7 @@ PROPS = {
              "what": "Message::from_slice accepts exactly slices of >= 12 octets (lengths 0..=12, all contents)"},
         ],
         "replays": [
+            {"bin": "d34_txt_parse_empty_rdata", "finding": "D34"},
             {"bin": "d1_iter_slice_self_pointer", "finding": "D1"},
             {"bin": "d2_canonical_name_ancount", "finding": "D2"},
         ],
@@ -125,6 +126,7 @@ PROPS = {
         "units": ["namecheck", "namebuilder", "nameparse"],
         "kani": [],
         "replays": [
+            {"bin": "d32_zonefile_empty_label", "crate": "replay_net", "finding": "D32"},
             {"bin": "d5a_push_at_253", "finding": "D5a"},
             {"bin": "d6_append_slice_open_label", "finding": "D6"},
             {"bin": "d15_append_name_open_label", "finding": "D15"},
@@ -162,6 +164,7 @@ PROPS = {
              "what": "a push that fails (space or limit) leaves octets and all four counts unchanged; a successful one adds exactly one to one count and stays below the limit"},
         ],
         "replays": [
+            {"bin": "d39_optbuilder_push_no_rollback", "finding": "D39"},
             {"bin": "d4_compress_pointer_beyond_3fff", "finding": "D4"},
         ],
         "explanation": "bounded contract checking plus unbounded contracts on the compressor position tables. Verus (unbounded): "
@@ -306,6 +309,9 @@ PROPS = {
         "units": ["tsig"],
         "kani": [],
         "replays": [
+            {"bin": "d36_tsig_sequence_truncated_mac", "crate": "replay_tsig", "finding": "D36"},
+            {"bin": "d37_tsig_wrong_secret_rcode", "crate": "replay_tsig", "finding": "D37"},
+            {"bin": "d38_tsig_unsigned_error_panics", "crate": "replay_tsig", "finding": "D38"},
             {"bin": "d9_tsig_badtime_mac", "crate": "replay_tsig", "finding": "D9"},
         ],
         "explanation": "contracts on the arithmetic and comparison parts of TSIG (the HMAC is ring: asm/FFI, out of reach): "
@@ -398,6 +404,10 @@ PROPS = {
                      "unescaped character that ends a word (owner names are written with this Display)"},
         ],
         "replays": [
+            {"bin": "d28_ipseckey_no_gateway_zonefile", "crate": "replay_net", "finding": "D28"},
+            {"bin": "d29_svcparamkey_charset", "crate": "replay_net", "finding": "D29"},
+            {"bin": "d30_no_default_alpn_mnemonic", "crate": "replay_net", "finding": "D30", "expect": "fail"},
+            {"bin": "d42_svcb_alpn_not_escaped", "crate": "replay_net", "finding": "D42", "expect": "fail"},
             {"bin": "d8_owner_name_special_chars", "crate": "replay_net", "finding": "D8"},
             {"bin": "d17_owner_leading_dollar", "crate": "replay_net", "finding": "D17"},
         ],
@@ -466,6 +476,8 @@ PROPS = {
                         "what": "all 30941 files of at most 4 octets over the 13 special octets, read through the public API with a 10 s progress watchdog"}},
         ],
         "replays": [
+            {"bin": "d31_nsec3_scan_long_salt_hash", "crate": "replay_net", "finding": "D31"},
+            {"bin": "d33_zonefile_quoted_string_token", "crate": "replay_net", "finding": "D33"},
             {"bin": "d16_zonefile_txt_at_eof", "crate": "replay_net", "finding": "D16"},
         ],
         "explanation": "the totality half of the statement, for the tokenizer every zone-file read goes through "
@@ -509,6 +521,11 @@ PROPS = {
             {"group": "g0", "name": "c05_mx_srv_roundtrip_bounded", "kind": "bounded", "tier": "thorough", "timeout": 1500,
              "bound": "one fixed mixed-case two-label name, all scalar fields",
              "what": "MX, SRV: rdlen exact; canonical form == wire form with exactly the embedded name lower-cased (RFC 4034 6.2 / RFC 6840 5.1)"},
+        ],
+        "replays": [
+            {"bin": "d35_opt_push_ignores_option_header", "finding": "D35"},
+            {"bin": "d40_infallible_constructors_long_rdata", "finding": "D40", "expect": "fail"},
+            {"bin": "d41_ipseckey_new_vs_parse", "finding": "D41", "expect": "fail"},
         ],
         "explanation": "Unit tsig (rdata/tsig.rs, base/rdata.rs): Tsig::new accepts exactly the data whose wire length (algorithm "
                        "name + 16 + MAC + other) fits the 16-bit RDLENGTH, LongRecordData::{check_len, check_append_len} are the "
